@@ -629,10 +629,131 @@ def r_state(c):
         "earlier in the process", floor_funcs=300)
 
 
+# ----------------------------------------------------------------- R05-CROSSED
+def _field_sources(fd, e, depth=0, seen=None):
+    """last attribute names of the attribute chains an expression is computed from,
+    following locals bound once (rec_a = self.rec(expr.m.a); K(a=rec_a.expr) -> {a})"""
+    seen = seen or set()
+    out = set()
+
+    def chain_root(a):
+        while isinstance(a, ast.Attribute):
+            a = a.value
+        return a
+    stack = [e]
+    while stack:
+        n = stack.pop()
+        if isinstance(n, ast.Attribute):
+            root = chain_root(n)
+            if isinstance(root, ast.Name) and root.id in _local_defs(fd) and depth < 4:
+                # an attribute of a local (acc.expr): what the local was computed from
+                if root.id not in seen:
+                    for v in _local_defs(fd)[root.id]:
+                        out |= _field_sources(fd, v, depth + 1, seen | {root.id})
+            elif isinstance(root, ast.Name):
+                out.add(n.attr)
+            else:
+                stack.append(root)
+            continue
+        if isinstance(n, ast.Name):
+            d = _local_defs(fd).get(n.id)
+            if d and depth < 4 and n.id not in seen:
+                for v in d:
+                    out |= _field_sources(fd, v, depth + 1, seen | {n.id})
+            continue
+        if isinstance(n, ast.Call):
+            # the receiver of a method call is not a source (self.rec(..)), arguments are
+            stack.extend(n.args)
+            stack.extend(k.value for k in n.keywords)
+            if not isinstance(n.func, (ast.Name, ast.Attribute)):
+                stack.append(n.func)
+            continue
+        stack.extend(ast.iter_child_nodes(n))
+    return out
+
+
+_LD_CACHE: dict = {}
+
+
+def _local_defs(fd):
+    d = _LD_CACHE.get(id(fd))
+    if d is None:
+        d = {}
+        params = {a.arg for a in fd.args.posonlyargs + fd.args.args + fd.args.kwonlyargs}
+        for a in ast.walk(fd):
+            if isinstance(a, (ast.Assign, ast.AnnAssign)) and a.value is not None:
+                for t in (a.targets if isinstance(a, ast.Assign) else [a.target]):
+                    if isinstance(t, ast.Name) and t.id not in params:
+                        d.setdefault(t.id, []).append(a.value)
+        _LD_CACHE[id(fd)] = d
+    return d
+
+
+def crossed_scan(m):
+    """[(function, call, f, g)]: a call with keywords f and g where f's value is
+    computed from field g only and g's value from field f only"""
+    hits, n_calls = [], 0
+    for mi, fd in m.all_functions():
+        if m.enclosing_function(fd) is not None:
+            continue
+        for call in ast.walk(fd):
+            if not isinstance(call, ast.Call):
+                continue
+            kws = [k for k in call.keywords if k.arg is not None]
+            if len(kws) < 2:
+                continue
+            n_calls += 1
+            names = {k.arg for k in kws}
+            src = {}
+            for k in kws:
+                s_ = _field_sources(fd, k.value)
+                src[k.arg] = s_ & names      # only sources that are sibling keywords count
+            for k in kws:
+                f = k.arg
+                if len(src[f]) == 1:
+                    g = next(iter(src[f]))
+                    if g != f and src.get(g) == {f} and f < g:
+                        hits.append((mi, fd, call, f, g))
+    return n_calls, hits
+
+
+def r_crossed(c):
+    """a node (or any record) rebuilt field by field receives every field from its
+    own counterpart: `K(a=<from .b>, b=<from .a>)` -- two parts of one node handed to
+    each other's keyword -- type-checks whenever the two have the same type (the
+    index arrays of a sparse matrix, the two operands of a binary node) and changes
+    the value of the transformed graph"""
+    m = c.model
+    n_calls, hits = crossed_scan(m)
+    c.units["keyword_calls_scanned"] = n_calls
+    if n_calls < 200:
+        raise AnalysisError(f"only {n_calls} calls with keywords scanned (floor 200)")
+    flagged = set()
+    for mi, fd, call, f, g in hits:
+        qn = m.qualname(fd).replace("pytato.", "", 1)
+        flagged.add(id(call))
+        c.violation("R05-CROSSED", qn, f"{m.frag(call.func, 40)}:{f}<->{g}",
+                    m.loc(mi, call),
+                    f"keyword `{f}` is computed from field `{g}` and keyword `{g}` from field "
+                    f"`{f}`: the two parts are handed to each other's place, the rebuilt "
+                    "node is not the node that was given")
+    c.ok("R05-CROSSED", "pytato", f"{n_calls} keyword calls, no crossed pair"
+         if not hits else f"{n_calls} keyword calls", "pytato/", nontrivial=False)
+    # canary: the fixture's swapped call must be flagged, the straight one not
+    from pathlib import Path
+    fm = Model(Path(__file__).resolve().parent.parent / "fixtures" / "crossed", package="fixpkg")
+    _n, fh = crossed_scan(fm)
+    got = sorted(fd.name for (_mi, fd, _c, _f, _g) in fh)
+    if got != ["map_swapped"]:
+        raise AnalysisError(f"R05-CROSSED canary: expected ['map_swapped'], flagged {got}")
+    c.ok("R05-CROSSED", "canary fixtures/crossed", "flagged:map_swapped",
+         "pta/fixtures/crossed", nontrivial=False)
+
+
 SPEC = Spec(
     prop="C05",
     rules=[r_nomut, r_rebuild, r_rebuild_guard, r_keys, r_tagonly, r_ident_keyed,
-           r_dedup_key, r_position, r_state],
+           r_dedup_key, r_position, r_state, r_crossed],
     floors={"R05-NOMUT": 300, "R05-REBUILD": 60, "R05-IDENTITY": 31,
             "R05-REBUILD-GUARD": 5, "R05-KEYS": 10, "R05-TAGONLY": 40,
             "R05-IDENT-KEYED": 2, "R05-DEDUP-KEY": 7, "R05-POSITION": 3, "R05-STATE": 8},
@@ -659,7 +780,9 @@ SPEC = Spec(
         "field). R05-KEYS also: a mapping is never rebuilt by zipping its key sequence "
         "with a separately ordered value sequence. R05-STATE: the transformation "
         "modules keep no state that outlives a call and hand out no module-level "
-        "container (canary fixture)."),
+        "container (canary fixture). R05-CROSSED: in no call of the package are two "
+        "keywords computed from each other's field (K(a=<from .b>, b=<from .a>), "
+        "following locals; canary fixture)."),
     not_decided=(
         "Value preservation for all inputs; idempotence of deduplicate / dead-code "
         "elimination / MPMS; positional correctness inside a rebuilt tuple "
